@@ -98,6 +98,7 @@ type caseSpec struct {
 	Crashes  []CrashSpec            `json:"crashes"`  // in order
 	Counters map[string][][2]string `json:"counters"` // session -> successive (input, output) octet values (decimal strings)
 	Origin   string                 `json:"origin,omitempty"`
+	NoDrain  bool                   `json:"nodrain,omitempty"` // DrainOnShutdown = false: a graceful stop leaves sessions and pending records to the next incarnation
 }
 
 type hitRec struct {
@@ -451,7 +452,7 @@ func (r *run) startIncarnation(dir string) {
 	am, err := radius.NewAccountingManager(cl, radius.AccountingConfig{
 		DefaultInterimInterval: time.Hour, InterimEnabled: false,
 		MaxRetries: r.c.Budget, RetryBaseDelay: time.Millisecond, RetryMaxDelay: 4 * time.Millisecond,
-		QueueSize: 256, PersistPath: dir, ShutdownTimeout: 4 * time.Second, DrainOnShutdown: true,
+		QueueSize: 256, PersistPath: dir, ShutdownTimeout: 4 * time.Second, DrainOnShutdown: !r.c.NoDrain,
 	}, zap.NewNop())
 	if err != nil {
 		r.setInconclusive("manager: " + err.Error())
